@@ -1,5 +1,14 @@
-import SaoVerif.Generated.Skeleton
-import SaoVerif.Spec.SkeletonExpected
+import SaoVerif.Skeleton.x_sao_abci_go
+import SaoVerif.Skeleton.x_sao_keeper_expire_management_go
+import SaoVerif.Skeleton.x_sao_keeper_expired_shard_go
+import SaoVerif.Skeleton.x_model_abic_go
+import SaoVerif.Skeleton.x_model_keeper_data_management_go
+import SaoVerif.Skeleton.x_sao_keeper_msg_server_complete_go
+import SaoVerif.Skeleton.x_sao_keeper_msg_server_renew_go
+import SaoVerif.Skeleton.x_sao_keeper_msg_server_terminate_go
+import SaoVerif.Skeleton.x_sao_keeper_msg_server_migrate_go
+import SaoVerif.Skeleton.x_order_keeper_order_management_go
+import SaoVerif.Skeleton.x_node_keeper_shard_pledge_management_go
 /-!
 # C11 — the decision logic of the anchor files is the one that was modelled
 
@@ -7,9 +16,10 @@ The extractor (harness/cmd/extract) regenerates, on every run and from the tree 
 function: its branching constructs in source order, each guard with its condition and with how its branch ends (`return <err>`,
 `continue`, `panic`, …). The hand-written model mirrors exactly these decisions (its `…Pre` / `…Guards` functions are the
 guards of the handlers, in their order). This theorem says that for the files the property is anchored in
-(x/sao/abci.go, x/sao/keeper/expire_management.go, x/sao/keeper/expired_shard.go, x/model/abic.go, x/model/keeper/data_management.go, x/sao/keeper/msg_server_complete.go, x/sao/keeper/msg_server_renew.go; and, because the anchored code calls into them, x_sao_keeper_msg_server_terminate_go, x_sao_keeper_msg_server_migrate_go, x_order_keeper_order_management_go, x_node_keeper_shard_pledge_management_go) the regenerated skeletons equal the ones the model was written against. A change of a guard, of its
-order, or a new or removed branch breaks it: the correspondence then has to be re-established (the check searches the
-histories for a failing input and reports the violation either way).
+(x/sao/abci.go, x/sao/keeper/expire_management.go, x/sao/keeper/expired_shard.go, x/model/abic.go, x/model/keeper/data_management.go, x/sao/keeper/msg_server_complete.go, x/sao/keeper/msg_server_renew.go; and, because the anchored code calls into them, x_sao_keeper_msg_server_terminate_go, x_sao_keeper_msg_server_migrate_go, x_order_keeper_order_management_go, x_node_keeper_shard_pledge_management_go) the regenerated skeletons equal the ones the model was written against
+(one kernel-evaluated equality per source file, `SaoVerif/Skeleton/<file>.lean`). A change of a guard, of its order, or a new or
+removed branch breaks it: the correspondence then has to be re-established (the check searches the histories for a failing
+input and reports the violation either way).
 -/
 namespace SaoVerif
 
@@ -36,6 +46,6 @@ theorem C11_decision_skeleton_as_modelled :
      Expected.Skel.x_sao_keeper_msg_server_migrate_go,
      Expected.Skel.x_order_keeper_order_management_go,
      Expected.Skel.x_node_keeper_shard_pledge_management_go] := by
-  decide +kernel
+  rw [skel_x_sao_abci_go, skel_x_sao_keeper_expire_management_go, skel_x_sao_keeper_expired_shard_go, skel_x_model_abic_go, skel_x_model_keeper_data_management_go, skel_x_sao_keeper_msg_server_complete_go, skel_x_sao_keeper_msg_server_renew_go, skel_x_sao_keeper_msg_server_terminate_go, skel_x_sao_keeper_msg_server_migrate_go, skel_x_order_keeper_order_management_go, skel_x_node_keeper_shard_pledge_management_go]
 
 end SaoVerif
